@@ -149,6 +149,13 @@ theorem C03_multiline_strict (ls₁ ls₂ : List (List Pt)) (l : List Pt) (p q :
   cases hp'; cases hq'
   exact absurd hlt (Rat.not_lt.2 h)
 
+/-- normalising twice is normalising once (on admissible coordinates), and the normal form of an
+    admissible value is again admissible -/
+theorem C03_normalise_idempotent (c : Geom) (h : Admissible c) :
+    normalise (normalise c) = normalise c ∧ Admissible (normalise c) ∧ Normal (normalise c) := by
+  have hv := normalise_valid c h
+  exact ⟨normalise_of_valid _ hv, hv.1, hv.2⟩
+
 /-! ## Re-validation of the dump -/
 
 /-- re-validating the dumped coordinates of an accepted geometry yields an equal geometry -/
